@@ -151,6 +151,57 @@ CHECKS = {
                      "exhaustively on all exact-regime instances over 4-5 nodes. Trace_C19S validates the per-size tables of get_svh (max_order "
                      "varied, mp in {False, True}, four label families): tested set, lower-set and parameter-dependence in all cases, p-values "
                      "and validated flags exactly where the tails fit 32 bits (size 2 N<=5, size 3 N<=4, sizes 4-6 N<=3). "),
+    "C11": dict(
+        level="model_checking", ref="3 C11",
+        text=("Motifs.tla defines Pattern, Connected, Orbit, Classes and Census (class -> number of k-subsets showing it) and, for "
+              "directed patterns, the nested sorted-tuple order with IsCanonicalDef (no relabelling has a smaller encoding). TLC "
+              "establishes 6 / 171 classes (12 / 1990 connected labelled patterns), that classes partition them, that the tuple order "
+              "is total and the integer codes follow it, exactly one canonical pattern per orbit (all 3-node directed hypergraphs, all "
+              "1-2-hyperedge patterns on 4 nodes), and checks CensusRelabelInvariant, CensusIgnoresLarge, CensusIgnoresSingletons, "
+              "CensusTotal and ThreePassCover in all 32768 hypergraphs on 4 nodes (sizes 1..4) and the canonical-form invariants in all "
+              "4096 directed hypergraphs on 3 nodes. TLC then validates compute_motifs / compute_directed_motifs(...)['observed'] "
+              "(orders 3 and 4) for all 2048 hypergraphs on 4 nodes with sizes 2..4 plus singletons, all 4096 directed hypergraphs on 3 "
+              "nodes (thorough; seeded samples in quick) and random ones on 5-7 nodes with sizes 1..6, each through several real objects "
+              "(permuted integer labels from five families, other insertion histories, extra larger hyperedges, isolated nodes): "
+              "representatives connected, every class exactly once, every count = the specification's census, same census across "
+              "variants; directed: reported tuple is the canonical encoding, each class once, count <= node sets showing it, same "
+              "census across variants."),
+        note=TB + " Integer labels only and disjoint source/target sets, as the statement restricts. For directed hypergraphs the "
+             "statement does not say which node sets are visited: equality with the enumeration the anchors describe is reported as "
+             "information (0 mismatches), not as a verdict. Hypergraphs on 5-7 nodes are sampled; the sampled approximate census and "
+             "the config-model scores are not covered.",
+        technique="TLA+ definitions + TLC ASSUME facts and exhaustive invariants; TLC validation of logged return values (one-call "
+                  "traces, metamorphic variants in one case)"),
+    "C15": dict(
+        level="model_checking", ref="3 C15",
+        text=("HyMMSBM.tla defines Lambda(e), kappa(d), the brute-force expected degrees / counts over ALL possible hyperedges and the "
+              "closed forms C, C', C'' as the code states them, over integer matrices with exact rationals; TLC checks "
+              "ClosedFormsEqualBruteForce (poisson_params shortcut, ExpCount, ExpDeg, AvgDeg for every set of sizes, handshake) for EVERY "
+              "u in {0..V}^(NxK) and symmetric w (quick N<=4: 57 665 states; thorough adds N=4,K=2,V=2: 177 147 states, N=5). Real HyMMSBM "
+              "objects (integer u,w divided by 1/2/4, N<=6, K<=3, weighted/unweighted hypergraphs, four label maps) are validated by TLC "
+              "(Trace_C15) value by value; Oracle_C15 returns the exact rationals for the float comparison. fit() is run with the same seed "
+              "and n_iter=1..T with u, w, both or none supplied; TLC re-executes the monitor EMDriver (explored exhaustively with two "
+              "must-fail mutants) along every run: FixedStay, FiniteNonNeg, WSymmetric, WDiagonalIfAssortative, Ascent. Exhaustive only for "
+              "the small universes; fits are sampled (for the fit part the assurance is that of an exploration)."),
+        note=TB + " Real-valued parts decided in Python: the log-likelihood from its definition and the MAP objective (enter TLC as "
+             "order-preserving integer ranks, tolerance 1e-9*max(1,|L|), single linkage), byte-identity/finite/symmetry flags; floats "
+             "are converted to the nearest fraction with denominator <= 10000, which must reproduce them at 1e-9. Known finding: the plain "
+             "likelihood is not monotone when w_prior > 0 (MAP updates).",
+        technique="TLA+ definitions + TLC exhaustive algebraic identity; TLC validation of logged return values and oracle mode (exact rationals); TLC trace validation of EM runs against a monitor state machine"),
+    "C17": dict(
+        level="exploration", ref="3 C17",
+        text=("ESP.tla (incrementally maintained elementary symmetric polynomials; PsiIsESP checked by TLC for all memberships in (0..2)^4, "
+              "every visiting order, two must-fail recurrence mutants) and EMDriver.tla (realisations, best' = max(best, cur), ties keep the "
+              "earlier, Return; explored exhaustively with two must-fail bookkeeping mutants). Every HypergraphMT.fit (480 configurations "
+              "quick / 6000 thorough: weighted or not, isolated nodes, four label maps, K, seeds, n_realizations, max_iter, normalizeU, "
+              "baseline_r0, min_value_par, check_convergence_every) is run twice; its train_info table (and mt_step/mt_end hook events when "
+              "installed) is re-executed by TLC against EMDriver (ascent per realisation for normalizeU=False, maxL = best final value, model "
+              "clauses for order/stopping/chosen realisation), and the discrete output contracts of HypergraphMT.fit and HySC.fit are decided "
+              "by TLC on logged flags/integers (Trace_C17: isolated set and D computed by TLC). Sampled, not exhaustive."),
+        note=TB + " Decided in Python: the log-likelihood from its definition with brute-force e_d (1e-8 relative plus a forward rounding "
+             "bound of the recurrences), tolerance ranks of the recorded log-likelihoods (a harness subclass observing _LogLikelihood supplies "
+             "the rounding bound; values computed while a logged hyperedge has rate 0 count as -inf), finite/non-negative/row-sum flags.",
+        technique="TLA+ recurrence + bookkeeping models checked exhaustively by TLC; TLC trace validation of the training table / hook events; TLC validation of output contracts on logged flags"),
 }
 
 NOT_APPLICABLE = {
@@ -210,7 +261,7 @@ def main():
     print("MANIFEST.json: %d checks, %d not_applicable" % (len(checks), len(na)))
 
 
-HOOK_COMMITS = ["0508060", "9afb12b", "50585b8"]
+HOOK_COMMITS = ["0508060", "9afb12b", "50585b8", "894336c"]
 
 if __name__ == "__main__":
     main()
